@@ -2,8 +2,14 @@ package main
 
 // Area "bulk" (C18): the real v2 router -> bulkHandler -> ProcessBulk over the scripted fake backend.
 //
-// input : {"cont":bool, "elems":[{"action":A, "data":"good|badfield|wrongshape|notarget", "outcome":"ok|insufficient|validation|notfound|internal", "ik":s}]}
-// output: {"status":int, "results":[responseType…], "codes":[errorCode…], "calls":[{"idx":i,"kind":k,"ik":s}], "decoded":bool}
+// input : {"cont":bool, "elems":[{"action":A, "data":<body shape, see bulkData>, "outcome":<answer of the backend call, see scriptedError>, "ik":s}]}
+// output: {"status":int, "results":[responseType…], "codes":[errorCode…], "calls":[{"idx":i,"kind":k,"ik":s,"ok":bool,"force":bool}], "decoded":bool}
+//
+// Every element is sent as a REAL body of one of the shapes ProcessBulk and the engine branch on (a transaction by postings, by a
+// script, by a script that does not compile, by both, by neither; metadata targets of every kind with well- and ill-formed ids;
+// reverts with their flags).  The fake backend does to a transaction what engine.Ledger + Commander.exec do first: no script ->
+// NewErrNoScript, the REAL compiler on the script text (+ SetVarsFromJSON) -> NewErrCompilationFailed, both wrapped by
+// engine.NewCommandError; after that the scripted answer, built with the constructors of internal/engine/command/errors.go.
 
 import (
 	"bytes"
@@ -19,6 +25,8 @@ import (
 	"github.com/formancehq/ledger/internal/engine"
 	"github.com/formancehq/ledger/internal/engine/command"
 	"github.com/formancehq/ledger/internal/machine"
+	"github.com/formancehq/ledger/internal/machine/script/compiler"
+	"github.com/formancehq/ledger/internal/machine/vm"
 	"github.com/formancehq/ledger/internal/opentelemetry/metrics"
 	"github.com/formancehq/stack/libs/go-libs/auth"
 )
@@ -67,61 +75,283 @@ func genBulk(r *rng, n int, tier string, emit func(J)) {
 		}
 		emit(q)
 	}
+	genBulkShapes(&rng{s: r.s ^ 0x5bd1e9955bd1e995}, n, maxLen, emit)
 }
 
-func bulkData(action, kind string, idx int, target string) string {
+// body shapes per action ("good" = the ordinary body) and backend answers; see bulkData / scriptedError
+var bulkShapes = map[string][]string{
+	"CREATE_TRANSACTION": {"script", "script_vars", "script_broken", "script_novars", "both", "both_broken", "neither", "empty_postings",
+		"script_empty", "null", "nodata", "postings_badamount", "badfield", "wrongshape"},
+	"ADD_METADATA": {"notarget", "tx_strid", "tx_fracid", "tx_negid", "tx_bigid", "tx_nullid", "acct_numid", "acct_emptyid", "acct_objid",
+		"unknown_target", "lower_target", "no_targettype", "null", "nodata", "badfield", "wrongshape"},
+	"DELETE_METADATA": {"notarget", "tx_strid", "tx_fracid", "tx_negid", "tx_bigid", "tx_nullid", "acct_numid", "acct_emptyid", "acct_objid",
+		"unknown_target", "lower_target", "no_targettype", "null", "nodata", "badfield", "wrongshape"},
+	"REVERT_TRANSACTION": {"force", "at_effective", "force_str", "strid", "fracid", "noid", "null", "nodata", "badfield", "wrongshape"},
+}
+var bulkOutcomes = []string{"insufficient", "insufficient_raw", "machine", "conflict", "nopostings", "noscript", "compilation", "save_notfound",
+	"del_notfound", "revert_notfound", "already_reverted", "revert_occurring", "validation", "internal", "storage"}
+
+// a revert without id reaches the backend with a nil id, a transaction given as `null` without metadata: the call cannot name
+// its element, so a bulk carries at most one such element per kind of call (the result is that kind, "" for all other elements)
+func bulkAnonymous(action, shape string) string {
+	switch {
+	case action == "REVERT_TRANSACTION" && (shape == "noid" || shape == "null"):
+		return "revert"
+	case action == "CREATE_TRANSACTION" && shape == "null":
+		return "create"
+	}
+	return ""
+}
+
+// genBulkShapes: a stream of its own (the cases of the first stream stay what they were).  First every body shape and every backend
+// answer once in the middle of a bulk, alone, and in last position, with and without continue-on-failure; then random mixes.
+func genBulkShapes(r *rng, n int, maxLen int, emit func(J)) {
+	good := func(a string) J { return J{"action": a, "data": "good", "outcome": "ok", "ik": ""} }
+	for _, a := range bulkActions {
+		for _, sh := range bulkShapes[a] {
+			for _, cont := range []bool{false, true} {
+				x := J{"action": a, "data": sh, "outcome": "ok", "ik": ""}
+				emit(J{"cont": cont, "elems": []any{good("CREATE_TRANSACTION"), x, good("ADD_METADATA")}, "broken": false, "hdr_ik": "", "series": 2})
+				if cont {
+					emit(J{"cont": r.p(50), "elems": []any{x}, "broken": false, "hdr_ik": "", "series": 2})
+				}
+			}
+		}
+		for _, oc := range bulkOutcomes {
+			for _, cont := range []bool{false, true} {
+				x := J{"action": a, "data": "good", "outcome": oc, "ik": ""}
+				emit(J{"cont": cont, "elems": []any{good("REVERT_TRANSACTION"), x, good("DELETE_METADATA")}, "broken": false, "hdr_ik": "", "series": 2})
+			}
+		}
+	}
+	for i := 0; i < n; i++ {
+		l := 1 + r.n(maxLen)
+		elems := make([]any, 0, l)
+		anon := map[string]bool{}
+		for k := 0; k < l; k++ {
+			a := r.pick(bulkActions)
+			e := J{"action": a, "data": "good", "outcome": "ok", "ik": ""}
+			switch r.n(10) {
+			case 0, 1, 2, 3:
+				sh := r.pick(bulkShapes[a])
+				if k := bulkAnonymous(a, sh); k != "" {
+					if anon[k] {
+						sh = "badfield"
+					}
+					anon[k] = true
+				}
+				e["data"] = sh
+			case 4:
+				e["action"] = r.pick([]string{"UNKNOWN", "", "create_transaction", "REVERT"})
+			}
+			if r.p(20) {
+				e["outcome"] = r.pick(bulkOutcomes)
+			}
+			if r.p(30) {
+				e["ik"] = fmt.Sprintf("k%d", r.n(3))
+			}
+			elems = append(elems, e)
+		}
+		emit(J{"cont": r.p(60), "elems": elems, "broken": false, "hdr_ik": "", "series": 2})
+	}
+}
+
+const goodScript = "send [USD 1] (\n  source = @world\n  destination = @bank\n)"
+const varsScript = "vars {\n  monetary $m\n  account $d\n}\nsend $m (\n  source = @world\n  destination = $d\n)"
+
+// texts the real compiler refuses
+var brokenScripts = []string{
+	"send [USD 1] (\n  source = @world\n  destination = ",
+	"this is not numscript",
+	goodScript + "\ntrailing",
+	"send [USD 1] (\n  source = @world allowing unbounded overdraft\n  destination = @bank\n)",
+	"vars {\n  monetary $m\n}\nsend $x (\n  source = @world\n  destination = @bank\n)",
+}
+
+// bulkData: the text of the `data` member of element idx (nil = the member is absent).  The element's position travels in the body
+// (metadata idx / key / id) wherever the shape allows, so that a backend call can be attributed to its element.
+func bulkData(action, kind string, idx int, target string) *string {
+	out := func(s string) *string { return &s }
+	is := strconv.Itoa(idx)
+	md := `"metadata":{"idx":"` + is + `"}`
+	postings := `"postings":[{"source":"world","destination":"bank","amount":1,"asset":"USD"}]`
+	js := func(s string) string { b, _ := json.Marshal(s); return string(b) }
 	switch kind {
 	case "badfield": // valid JSON, but a field of the wrong type for the request struct of every action
-		return `{"postings":"x","id":"abc","targetType":5,"force":"no"}`
+		return out(`{"postings":"x","id":"abc","targetType":5,"force":"no"}`)
 	case "wrongshape":
-		return `7`
+		return out(`7`)
+	case "null":
+		return out(`null`)
+	case "nodata":
+		return nil
 	}
-	is := strconv.Itoa(idx)
 	switch action {
 	case "CREATE_TRANSACTION":
-		return `{"postings":[{"source":"world","destination":"bank","amount":1,"asset":"USD"}],"metadata":{"idx":"` + is + `"}}`
-	case "ADD_METADATA":
-		if kind == "notarget" {
-			return `{"targetType":"` + target + `","metadata":{"idx":"` + is + `"}}`
+		switch kind {
+		case "script":
+			return out(`{"script":{"plain":` + js(goodScript) + `},` + md + `}`)
+		case "script_vars":
+			return out(`{"script":{"plain":` + js(varsScript) + `,"vars":{"m":{"asset":"USD","amount":3},"d":"bank"}},` + md + `}`)
+		case "script_broken":
+			return out(`{"script":{"plain":` + js(brokenScripts[idx%len(brokenScripts)]) + `},` + md + `}`)
+		case "script_novars": // compiles; the variables it declares are not given: SetVarsFromJSON refuses
+			return out(`{"script":{"plain":` + js(varsScript) + `},` + md + `}`)
+		case "both":
+			return out(`{` + postings + `,"script":{"plain":` + js(goodScript) + `},` + md + `}`)
+		case "both_broken":
+			return out(`{` + postings + `,"script":{"plain":` + js(brokenScripts[idx%len(brokenScripts)]) + `},` + md + `}`)
+		case "neither":
+			return out(`{` + md + `}`)
+		case "empty_postings":
+			return out(`{"postings":[],` + md + `}`)
+		case "script_empty":
+			return out(`{"script":{"plain":""},` + md + `}`)
+		case "postings_badamount":
+			return out(`{"postings":[{"source":"world","destination":"bank","amount":"x","asset":"USD"}],` + md + `}`)
 		}
+		return out(`{` + postings + `,` + md + `}`)
+	case "ADD_METADATA", "DELETE_METADATA":
+		rest := md
+		if action == "DELETE_METADATA" {
+			rest = `"key":"` + is + `"`
+		}
+		tt, id := `"targetType":"`+target+`",`, `"targetId":"bank",`
 		if target == "TRANSACTION" {
-			return `{"targetType":"TRANSACTION","targetId":1,"metadata":{"idx":"` + is + `"}}`
+			id = `"targetId":1,`
 		}
-		return `{"targetType":"ACCOUNT","targetId":"bank","metadata":{"idx":"` + is + `"}}`
+		switch kind {
+		case "notarget":
+			id = ``
+		case "tx_strid":
+			tt, id = `"targetType":"TRANSACTION",`, `"targetId":"7",`
+		case "tx_fracid":
+			tt, id = `"targetType":"TRANSACTION",`, `"targetId":1.5,`
+		case "tx_negid":
+			tt, id = `"targetType":"TRANSACTION",`, `"targetId":-3,`
+		case "tx_bigid":
+			tt, id = `"targetType":"TRANSACTION",`, `"targetId":1180591620717411303424,`
+		case "tx_nullid":
+			tt, id = `"targetType":"TRANSACTION",`, `"targetId":null,`
+		case "acct_numid":
+			tt, id = `"targetType":"ACCOUNT",`, `"targetId":5,`
+		case "acct_emptyid":
+			tt, id = `"targetType":"ACCOUNT",`, `"targetId":"",`
+		case "acct_objid":
+			tt, id = `"targetType":"ACCOUNT",`, `"targetId":{"a":1},`
+		case "unknown_target":
+			tt, id = `"targetType":"FOO",`, `"targetId":"x",`
+		case "lower_target":
+			tt, id = `"targetType":"account",`, `"targetId":"bank",`
+		case "no_targettype":
+			tt = ``
+		}
+		return out(`{` + tt + id + rest + `}`)
 	case "REVERT_TRANSACTION":
-		return `{"id":` + is + `,"force":false}`
-	case "DELETE_METADATA":
-		if kind == "notarget" {
-			return `{"targetType":"` + target + `","key":"` + is + `"}`
+		switch kind {
+		case "force":
+			return out(`{"id":` + is + `,"force":true}`)
+		case "at_effective":
+			return out(`{"id":` + is + `,"force":false,"atEffectiveDate":true}`)
+		case "force_str":
+			return out(`{"id":` + is + `,"force":"yes"}`)
+		case "strid":
+			return out(`{"id":"` + is + `","force":false}`)
+		case "fracid":
+			return out(`{"id":` + is + `.5,"force":false}`)
+		case "noid":
+			return out(`{"force":true}`)
 		}
-		if target == "TRANSACTION" {
-			return `{"targetType":"TRANSACTION","targetId":1,"key":"` + is + `"}`
-		}
-		return `{"targetType":"ACCOUNT","targetId":"bank","key":"` + is + `"}`
+		return out(`{"id":` + is + `,"force":false}`)
 	}
 	// unknown action: any payload
-	return `{"idx":"` + is + `"}`
+	return out(`{"idx":"` + is + `"}`)
+}
+
+// scriptedError: the error value the backend call returns for an outcome name, built as the engine builds it
+// (engine.Ledger wraps whatever the commander returns with NewCommandError; the *_raw / internal / storage ones are not wrapped).
+func scriptedError(outcome string) error {
+	switch outcome {
+	case "ok", "":
+		return nil
+	case "insufficient":
+		return engine.NewCommandError(command.NewErrMachine(machine.NewErrInsufficientFund("scripted")))
+	case "insufficient_raw":
+		return machine.NewErrInsufficientFund("scripted")
+	case "machine":
+		return engine.NewCommandError(command.NewErrMachine(machine.NewErrNegativeAmount("scripted")))
+	case "conflict":
+		return engine.NewCommandError(command.NewErrConflict())
+	case "nopostings":
+		return engine.NewCommandError(command.NewErrNoPostings())
+	case "noscript":
+		return engine.NewCommandError(command.NewErrNoScript())
+	case "compilation":
+		return engine.NewCommandError(command.NewErrCompilationFailed(errors.New("scripted")))
+	case "save_notfound":
+		return engine.NewCommandError(command.VerifErrSaveMetaNotFound())
+	case "del_notfound":
+		return engine.NewCommandError(command.VerifErrDeleteMetaNotFound())
+	case "revert_notfound":
+		return engine.NewCommandError(command.NewErrRevertTransactionNotFound())
+	case "already_reverted":
+		return engine.NewCommandError(command.NewErrRevertTransactionAlreadyReverted())
+	case "revert_occurring":
+		return engine.NewCommandError(command.NewErrRevertTransactionOccurring())
+	case "validation":
+		return engine.NewCommandError(errors.New("scripted validation"))
+	case "notfound":
+		return engine.NewCommandError(errors.New("scripted not found"))
+	}
+	return errors.New("scripted " + outcome) // internal, storage
+}
+
+// engineFront: what engine.Ledger.CreateTransaction + Commander.exec do with a script before anything else
+func engineFront(c writeCall) error {
+	if c.Kind != "create" {
+		return nil
+	}
+	if c.Script.Plain == "" {
+		return engine.NewCommandError(command.NewErrNoScript())
+	}
+	prog, err := compiler.Compile(c.Script.Plain)
+	if err != nil {
+		return engine.NewCommandError(command.NewErrCompilationFailed(err))
+	}
+	if err := vm.NewMachine(*prog).SetVarsFromJSON(c.Script.Vars); err != nil {
+		return engine.NewCommandError(command.NewErrCompilationFailed(err))
+	}
+	return nil
 }
 
 // spellings of ?continueOnFailure= a client may send (sharedapi.QueryParamBool: lower-cased "1" or "true" switch it on)
 var contSpellings = []string{"true", "TRUE", "True", "1", "false", "FALSE", "False", "0", "no", "NO", "yes", "off", "on", "", "<bare>", "t", "f", "01", " true", "true ", "null", "continueOnFailure"}
 
 func callIdx(c writeCall) int {
+	num := func(s string, ok bool) int {
+		if !ok {
+			return -1
+		}
+		n, err := strconv.Atoi(s)
+		if err != nil {
+			return -1
+		}
+		return n
+	}
 	switch c.Kind {
 	case "create":
-		n, _ := strconv.Atoi(c.Script.Metadata["idx"])
-		return n
+		v, ok := c.Script.Metadata["idx"]
+		return num(v, ok)
 	case "savemeta":
-		n, _ := strconv.Atoi(c.Meta["idx"])
-		return n
+		v, ok := c.Meta["idx"]
+		return num(v, ok)
 	case "revert":
 		if c.ID == nil {
 			return -1
 		}
 		return int(c.ID.Int64())
 	case "deletemeta":
-		n, _ := strconv.Atoi(c.Key)
-		return n
+		return num(c.Key, true)
 	}
 	return -1
 }
@@ -130,6 +360,7 @@ func execBulk(in J) J {
 	elems, _ := in["elems"].([]any)
 	cont, _ := in["cont"].(bool)
 	outcomes := map[int]string{}
+	anonymous := map[string]int{} // call kind -> position of the element whose call cannot name it (see bulkAnonymous)
 	var body bytes.Buffer
 	body.WriteString("[")
 	for i, ea := range elems {
@@ -145,30 +376,40 @@ func execBulk(in J) J {
 		if i > 0 {
 			body.WriteString(",")
 		}
+		if k := bulkAnonymous(action, kind); k != "" {
+			anonymous[k] = i
+		}
 		ab, _ := json.Marshal(action)
 		kb, _ := json.Marshal(ik)
-		fmt.Fprintf(&body, `{"action":%s,"ik":%s,"data":%s}`, ab, kb, bulkData(action, kind, i, target))
+		if d := bulkData(action, kind, i, target); d != nil {
+			fmt.Fprintf(&body, `{"action":%s,"ik":%s,"data":%s}`, ab, kb, *d)
+		} else {
+			fmt.Fprintf(&body, `{"action":%s,"ik":%s}`, ab, kb)
+		}
 	}
 	body.WriteString("]")
 	if b, _ := in["broken"].(bool); b { // the body as a whole is not JSON: the request is rejected before ProcessBulk
 		body.Truncate(body.Len() - 1)
 	}
 
-	fl := &fakeLedger{}
-	fl.decide = func(c writeCall) error {
-		switch outcomes[callIdx(c)] {
-		case "ok", "":
-			return nil
-		case "insufficient":
-			return engine.NewCommandError(machine.NewErrInsufficientFund("scripted"))
-		case "validation":
-			return engine.NewCommandError(errors.New("scripted validation"))
-		case "notfound":
-			// the not-found classes of the metadata writes; a plain command error for the others
-			return engine.NewCommandError(errors.New("scripted not found"))
-		default:
-			return errors.New("scripted internal")
+	elemOf := func(c writeCall) int {
+		if i := callIdx(c); i >= 0 {
+			return i
 		}
+		if i, ok := anonymous[c.Kind]; ok {
+			return i
+		}
+		return -1
+	}
+	fl := &fakeLedger{}
+	var callOK []bool
+	fl.decide = func(c writeCall) error {
+		err := engineFront(c)
+		if err == nil {
+			err = scriptedError(outcomes[elemOf(c)])
+		}
+		callOK = append(callOK, err == nil)
+		return err
 	}
 	router := v2.NewRouter(&fakeBackend{l: fl}, nil, metrics.NewNoOpRegistry(), auth.NewNoAuth())
 	url := "/ledger0/_bulk"
@@ -209,8 +450,9 @@ func execBulk(in J) J {
 	}
 	out["results"], out["codes"] = results, codes
 	calls := []any{}
-	for _, c := range fl.writes {
-		calls = append(calls, J{"idx": callIdx(c), "kind": c.Kind, "ik": c.Params.IdempotencyKey, "dry": c.Params.DryRun})
+	for k, c := range fl.writes {
+		calls = append(calls, J{"idx": elemOf(c), "kind": c.Kind, "ik": c.Params.IdempotencyKey, "dry": c.Params.DryRun,
+			"ok": k < len(callOK) && callOK[k], "force": c.Force})
 	}
 	out["calls"] = calls
 	_ = command.Parameters{}
